@@ -1,8 +1,8 @@
 package chk
 
 import (
-	"go/constant"
 	"fmt"
+	"go/constant"
 	"go/token"
 	"go/types"
 	"strings"
@@ -291,7 +291,9 @@ func ruleTeletextGuards(p *Prog, l *Ledger, tier string) {
 	}
 	checkGuards(p, l, rule, "teletextPageBuffer.parsePacket", "call of parsePacketData", callSites(pp, "teletextPageBuffer.parsePacketData"), []guardAtom{
 		{"the page buffer is receiving", func(c []domCond) bool { return holdsTruth(c, isFieldNamed("receiving"), true) }},
-		{"the packet's magazine equals the selected magazine", func(c []domCond) bool { return holdsEq(c, isParamNamed("magazineNumber"), isFieldNamed("magazineNumber")) }},
+		{"the packet's magazine equals the selected magazine", func(c []domCond) bool {
+			return holdsEq(c, isParamNamed("magazineNumber"), isFieldNamed("magazineNumber"))
+		}},
 		{"packet number ≥ 1", func(c []domCond) bool { return holdsCmp(c, isParamNamed("packetNumber"), token.GEQ, 1) }},
 		{"packet number ≤ 25", func(c []domCond) bool { return holdsCmp(c, isParamNamed("packetNumber"), token.LEQ, 25) }},
 	})
@@ -345,7 +347,9 @@ func ruleTeletextGuards(p *Prog, l *Ledger, tier string) {
 		{"the header's page number equals the selected page", func(c []domCond) bool {
 			return holdsEq(c, func(v ssa.Value) bool { _, isB := v.(*ssa.BinOp); return isB }, isFieldNamed("pageNumber"))
 		}},
-		{"the header's magazine equals the selected magazine", func(c []domCond) bool { return holdsEq(c, isParamNamed("magazineNumber"), isFieldNamed("magazineNumber")) }},
+		{"the header's magazine equals the selected magazine", func(c []domCond) bool {
+			return holdsEq(c, isParamNamed("magazineNumber"), isFieldNamed("magazineNumber"))
+		}},
 	})
 	// text is appended only inside a box (started)
 	var textStores []ssa.Instruction
